@@ -42,11 +42,11 @@ def is_sliceish(t, F):
 
 
 RANGE_KINDS = {
-    "std::ops::RangeTo": "to", "core::ops::RangeTo": "to",
-    "std::ops::RangeFrom": "from", "core::ops::RangeFrom": "from",
-    "std::ops::Range": "range", "core::ops::Range": "range",
-    "std::ops::RangeToInclusive": "toinc", "core::ops::RangeToInclusive": "toinc",
-    "std::ops::RangeFull": "full", "core::ops::RangeFull": "full",
+    "std::ops::RangeTo": "to", "std::ops::RangeTo": "to",
+    "std::ops::RangeFrom": "from", "std::ops::RangeFrom": "from",
+    "std::ops::Range": "range", "std::ops::Range": "range",
+    "std::ops::RangeToInclusive": "toinc", "std::ops::RangeToInclusive": "toinc",
+    "std::ops::RangeFull": "full", "std::ops::RangeFull": "full",
 }
 
 
